@@ -129,9 +129,9 @@ func (o *obs) String() string {
 }
 
 type world struct {
-	g       *dag.Graph
-	byDgst  map[digest.Digest]int
-	tagIdx  map[string]int
+	g      *dag.Graph
+	byDgst map[digest.Digest]int
+	tagIdx map[string]int
 }
 
 func newWorld(g *dag.Graph) *world {
@@ -742,7 +742,7 @@ func (r *runner) generate(rnd *common.Rand, nops int) {
 		switch {
 		case c < 40: // push
 			k := common.Pick(rnd, real)
-			if r.h.AutoGC {
+			if rnd.Chance(1, 3) {
 				// closure, children first
 				var order []int
 				seen := map[int]bool{}
@@ -780,19 +780,6 @@ func (r *runner) generate(rnd *common.Rand, nops int) {
 				a = strconv.Itoa(rnd.Intn(len(tagPool)))
 			}
 			t := rnd.Intn(len(tagPool))
-			if r.h.AutoGC {
-				// moving a tag to another node leaves a stale entry in resolver.Memory's tag
-				// set, which only isTagged (the AutoGC cascade, C09) can see: AutoGC
-				// histories re-tag the same node only; tags move freely in the others
-				for try := 0; try < 4; try++ {
-					if d, err := r.store.Resolve(ctx, tagPool[t]); err == nil && d.Digest != g.Nodes[k].Desc.Digest {
-						t = rnd.Intn(len(tagPool))
-					}
-				}
-				if d, err := r.store.Resolve(ctx, tagPool[t]); err == nil && d.Digest != g.Nodes[k].Desc.Digest {
-					continue
-				}
-			}
 			ref := strconv.Itoa(t)
 			if rnd.Chance(1, 10) {
 				ref = "d"
@@ -815,52 +802,28 @@ func (r *runner) generate(rnd *common.Rand, nops int) {
 				r.do(fmt.Sprintf("U%d", t))
 			}
 		case c < 80: // delete
-			if r.h.AutoGC {
-				// only nodes without a stored predecessor (cascades through referrers and
-				// through missing children belong to C09)
-				var cands []int
-				for _, k := range real {
-					if !r.present(k) {
-						continue
-					}
-					has := false
-					for _, p := range g.Preds(k) {
-						if r.present(p) {
-							has = true
-						}
-					}
-					if !has {
-						cands = append(cands, k)
-					}
-				}
-				if len(cands) > 0 {
-					r.do(fmt.Sprintf("D%d", common.Pick(rnd, cands)))
-				}
-			} else {
+			{
 				k := common.Pick(rnd, real)
 				if p, ok := pickPresent(); ok && rnd.Chance(4, 5) {
 					k = p
 				}
+				if r.h.AutoGC {
+					for _, p := range g.Preds(k) {
+						if g.Nodes[p].Subject == k && r.present(p) {
+							run.Count("delete:autogc-with-stored-referrer")
+							break
+						}
+					}
+				}
 				r.do(fmt.Sprintf("D%d", k))
 			}
 		case c < 84: // GC
-			for round := 0; round < 6; round++ {
-				off := r.gcOffenders()
-				if len(off) == 0 {
-					break
-				}
-				k := common.Pick(rnd, off)
-				if rnd.Chance(2, 3) {
-					r.do(fmt.Sprintf("T%d:0:-:%d", k, rnd.Intn(len(tagPool))))
-				} else {
-					r.do(fmt.Sprintf("D%d", k))
-				}
+			if len(r.gcOffenders()) > 0 {
+				// untagged manifests whose subject is outside the tagged closure (subject
+				// chains, referrers of referrers, referrers of garbage)
+				run.Count("gc:with-untagged-subject-chains")
 			}
-			if len(r.gcOffenders()) == 0 {
-				r.do("G")
-			} else {
-				run.Count("gc-skipped-by-guard")
-			}
+			r.do("G")
 		case c < 88: // SaveIndex
 			r.do("S")
 		case c < 91: // reopen read-write (only when index.json is current)
@@ -975,8 +938,6 @@ func generateHistory(seed uint64, index int, thorough bool) {
 	if index%16 == 15 {
 		o.MinNodes, o.MaxNodes = 2, 5
 	}
-	o.Subjects = !h.AutoGC
-	o.Foreign = !h.AutoGC // a never-stored child in the graph makes the AutoGC cascade fail (C09)
 	g := dag.Random(rnd, o)
 	// descriptor-consistent universe: a digest is used under one media type only (no twins);
 	// one or two extra blobs are addressed by sha512 (long names: PAX headers in the tar)
